@@ -56,27 +56,42 @@ fn program_uses_json_stringify(program: &Program) -> bool {
                 }
             }
             Declaration::Model(model) => {
-                for method in &model.methods {
-                    if let Some(body) = &method.node.body {
-                        if body_uses_json_stringify(body) {
-                            return true;
-                        }
-                    }
+                if methods_use_json_stringify(&model.methods) || field_defaults_use(&model.fields, expr_uses_json_stringify) {
+                    return true;
                 }
             }
             Declaration::Class(class) => {
-                for method in &class.methods {
-                    if let Some(body) = &method.node.body {
-                        if body_uses_json_stringify(body) {
-                            return true;
-                        }
-                    }
+                if methods_use_json_stringify(&class.methods) || field_defaults_use(&class.fields, expr_uses_json_stringify) {
+                    return true;
+                }
+            }
+            Declaration::Trait(tr) => {
+                if methods_use_json_stringify(&tr.methods) {
+                    return true;
+                }
+            }
+            Declaration::Newtype(nt) => {
+                if methods_use_json_stringify(&nt.methods) {
+                    return true;
                 }
             }
             _ => {}
         }
     }
     false
+}
+
+fn methods_use_json_stringify(methods: &[Spanned<ast::MethodDecl>]) -> bool {
+    methods
+        .iter()
+        .any(|m| m.node.body.as_ref().is_some_and(|b| body_uses_json_stringify(b)))
+}
+
+/// Field default values are emitted into the generated constructor, so they count for feature detection.
+fn field_defaults_use(fields: &[Spanned<ast::FieldDecl>], uses: fn(&Expr) -> bool) -> bool {
+    fields
+        .iter()
+        .any(|f| f.node.default.as_ref().is_some_and(|d| uses(&d.node)))
 }
 
 fn body_uses_json_stringify(body: &[Spanned<Statement>]) -> bool {
@@ -92,13 +107,23 @@ fn stmt_uses_json_stringify(stmt: &Statement) -> bool {
         Statement::IndexAssignment(assign) => expr_uses_json_stringify(&assign.value.node),
         Statement::TupleUnpack(unpack) => expr_uses_json_stringify(&unpack.value.node),
         Statement::TupleAssign(assign) => expr_uses_json_stringify(&assign.value.node),
+        Statement::ChainedAssignment(assign) => expr_uses_json_stringify(&assign.value.node),
         Statement::Return(Some(expr)) => expr_uses_json_stringify(&expr.node),
         Statement::If(if_stmt) => {
-            body_uses_json_stringify(&if_stmt.then_body)
+            expr_uses_json_stringify(&if_stmt.condition.node)
+                || body_uses_json_stringify(&if_stmt.then_body)
+                || if_stmt
+                    .elif_branches
+                    .iter()
+                    .any(|(cond, body)| expr_uses_json_stringify(&cond.node) || body_uses_json_stringify(body))
                 || if_stmt.else_body.as_ref().is_some_and(|b| body_uses_json_stringify(b))
         }
-        Statement::While(while_stmt) => body_uses_json_stringify(&while_stmt.body),
-        Statement::For(for_stmt) => body_uses_json_stringify(&for_stmt.body),
+        Statement::While(while_stmt) => {
+            expr_uses_json_stringify(&while_stmt.condition.node) || body_uses_json_stringify(&while_stmt.body)
+        }
+        Statement::For(for_stmt) => {
+            expr_uses_json_stringify(&for_stmt.iter.node) || body_uses_json_stringify(&for_stmt.body)
+        }
         _ => false,
     }
 }
@@ -202,6 +227,9 @@ pub fn detect_async_usage(program: &Program) -> bool {
                         }
                     }
                 }
+                if field_defaults_use(&model.fields, expr_uses_async) {
+                    return true;
+                }
             }
             Declaration::Class(class) => {
                 for method in &class.methods {
@@ -213,6 +241,21 @@ pub fn detect_async_usage(program: &Program) -> bool {
                             return true;
                         }
                     }
+                }
+                if field_defaults_use(&class.fields, expr_uses_async) {
+                    return true;
+                }
+            }
+            // Bodies of trait default methods and newtype methods are emitted too (an `async` signature alone needs
+            // no runtime crate, a call to `sleep(..)` inside does).
+            Declaration::Trait(tr) => {
+                if tr.methods.iter().any(|m| m.node.body.as_ref().is_some_and(|b| body_uses_async(b))) {
+                    return true;
+                }
+            }
+            Declaration::Newtype(nt) => {
+                if nt.methods.iter().any(|m| m.node.body.as_ref().is_some_and(|b| body_uses_async(b))) {
+                    return true;
                 }
             }
             _ => {}
@@ -239,10 +282,15 @@ fn stmt_uses_async(stmt: &Statement) -> bool {
         Statement::IndexAssignment(assign) => expr_uses_async(&assign.value.node),
         Statement::TupleUnpack(unpack) => expr_uses_async(&unpack.value.node),
         Statement::TupleAssign(assign) => expr_uses_async(&assign.value.node),
+        Statement::ChainedAssignment(assign) => expr_uses_async(&assign.value.node),
         Statement::Return(Some(expr)) => expr_uses_async(&expr.node),
         Statement::If(if_stmt) => {
             expr_uses_async(&if_stmt.condition.node)
                 || body_uses_async(&if_stmt.then_body)
+                || if_stmt
+                    .elif_branches
+                    .iter()
+                    .any(|(cond, body)| expr_uses_async(&cond.node) || body_uses_async(body))
                 || if_stmt.else_body.as_ref().is_some_and(|b| body_uses_async(b))
         }
         Statement::While(while_stmt) => {
